@@ -9,12 +9,13 @@ ASSUMPTIONS = [
     "delegations deleg_a_ (claims on the delegation pool's balance, which is counted) and validator reward claims rwz_/rwcum_ (paid out "
     "of the reward pool's balance, which is counted; their size is C13's property)",
     "allowance of a block = the increase of the code's own accrual counter delegRwz_total_rewards in its BeginBlock (that the accrual "
-    "follows the reward schedule is C13); wrapped-currency mints/refunds at witness finality (C15) and OLVM execution (C17) are not "
-    "exercised by the histories of this check: the per-step monitors would flag them, those slices prove their conservation",
+    "follows the reward schedule is C13); wrapped-currency mints/refunds at witness finality (C15) are not "
+    "exercised by the histories of this check; OLVM transactions (transfers, contract creations, failures) ARE in the scenarios and random "
+    "histories and are judged by the monitors (keeper_ nonce records and contract code/storage hold no value; C17 proves their conservation)",
     "a state record the decoder does not recognise fails the check (never silently dropped)",
     "per-kind theorems are about the effect functions of LedgerTx.v (hand-written after the Go handlers, tied by the per-step "
-    "correspondence); kinds without an effect function (allegation penalty/bounty C19, proposal fund distribution C14, validator reward "
-    "payout C13, ETH/BTC C15, OLVM C17, bid app) are covered by the monitors only",
+    "correspondence); kinds without an effect function (proposal fund distribution C14, "
+    "ETH/BTC C15, OLVM C17, bid app) are covered by the monitors only; the allegation penalty hook and WITHDRAW_REWARD are modelled",
     "a failed transaction leaves no trace (DeliverTx discards the session: C06) - also checked here on every failed step",
 ]
 
